@@ -11,7 +11,7 @@
     reported is allowed together with what arrived.
 (B) gate schedules (first trace): the blocking hook parks sender A inside its critical section while B calls Send;
     faults are imposed at exact points while the sender is parked."""
-import os, re
+import json, os, re
 import vf
 
 MODE_ONLY = {
@@ -22,6 +22,37 @@ MODE_ONLY = {
 
 def zero_actions(out):
     return set(re.findall(r"<(\w+) line \d+, col \d+ to line \d+, col \d+ of module \w+[^>]*>: 0:0", out))
+
+
+def validate_all(run, out, meta, max_unconfirmed=4):
+    """run.validate, but a rejected history that does not reproduce (timing dependent) is set aside and the rest of the
+    trace is still judged; returns the histories set aside"""
+    aside = []
+    while True:
+        try:
+            run.validate(out, meta, dfs=True)
+            return aside
+        except vf.MachineryError as ex:
+            m = re.search(r"rejection of (?:history )?(\w+)/(\d+) did not reproduce", str(ex))
+            if not m:
+                raise
+            gen, case = m.group(1), int(m.group(2))
+            aside.append("%s/%d" % (gen, case))
+            if len(aside) > max_unconfirmed:
+                if run.violations:      # confirmed rejections exist: the verdict stands, stop judging
+                    return aside
+                raise
+            vf.log("note: rejection of %s/%d did not reproduce; set aside, judging the rest" % (gen, case))
+            drop = {(gen, case)}
+            for rp in run.violations:       # already confirmed and reported: not judged a second time
+                rec = json.load(open(rp))
+                drop.add((rec.get("gen"), rec.get("case")))
+            for job in meta.get("jobs", []):
+                path = os.path.join(out, job["trace"])
+                hs = vf.split_histories(open(path).read().splitlines())
+                keep = [h for h in hs if not (vf.is_reset(h[0]) and (json.loads(h[0]).get("gen"), json.loads(h[0]).get("case")) in drop)]
+                if len(keep) != len(hs):
+                    open(path, "w").write("".join(x + "\n" for h in keep for x in h))
 
 
 def body(run):
@@ -56,14 +87,11 @@ def body(run):
     gate = dict(meta, jobs=[j for j in jobs if j["trace"].startswith("c06_gate")])
     rest = dict(meta, jobs=[j for j in jobs if not j["trace"].startswith("c06_gate")])
     # the imposed schedules first: their verdict is reproducible by construction
-    run.validate(out, gate, dfs=True)
-    try:
-        run.validate(out, rest, dfs=True)
-    except vf.MachineryError as ex:
-        # a rejected history of a free-running schedule need not reproduce; it does not take away a confirmed verdict
-        if not run.violations:
-            raise
-        vf.log("note: %s" % str(ex)[:300])
+    unconfirmed = validate_all(run, out, gate) + validate_all(run, out, rest)
+    run.extra["c06_unconfirmed_rejections"] = unconfirmed
+    if unconfirmed and not run.violations:
+        # only a rejection that reproduces is a verdict; one that does not is a machinery failure (exit 2), never a pass
+        raise vf.MachineryError("rejected histories that did not reproduce on a second run: %s" % unconfirmed)
     run.selftest(out, gate, gen="gate", dfs=True, field="id")
     run.selftest(out, rest, gen="fault", dfs=True, field="err")
     run.selftest(out, rest, gen="sac", dfs=True, field="plen")
